@@ -405,6 +405,98 @@ def case_context(p):
     return [(sig + ":under-another-decimal-context", dict(d, context=p["context"], default=repr(base), under_context=repr(other))) for sig, d in jv]
 
 
+def case_validvalues(p):
+    """A characteristic that also lists valid-values (and maybe a valid-values range): what comes out is still a value of the format, on the
+    grid, within the declared range - judged exactly like the same characteristic without the list."""
+    from aiohomekit.model import Accessory
+    from aiohomekit.model.characteristics.characteristic import check_convert_value
+
+    fmt, lo, hi, st, kind, v = p["fmt"], p["lo"], p["hi"], p["st"], p["kind"], p["v"]
+    ch = Accessory(11).add_service(SERV_TYPE).add_char(CHAR_TYPE, format=fmt, min_value=lo, max_value=hi, min_step=st, perms=["pr", "pw"], iid=77, valid_values=list(p["valid"]))
+    if p.get("vrange"):
+        ch.valid_values_range = list(p["vrange"])
+    res = _call(lambda: check_convert_value(_materialise(kind, v), ch))
+    base, _ = _run_seams(fmt, lo, hi, st, kind, v)
+    jv, _ = _judge_numeric(fmt, lo, hi, st, kind if kind in ("int", "float", "str") else "int", v if kind in ("int", "float", "str") else str(int(float(v))), res)
+    out = [(sig + ":characteristic-lists-valid-values", dict(d, valid_values=p["valid"])) for sig, d in jv]
+    if not out and not _same(res, base) and base[0] == "value":
+        out.append(("result-depends-on-the-valid-values-list", {"with_list": repr(res), "without": repr(base), "valid_values": p["valid"]}))
+    return out
+
+
+def _thread_schedules(fn_a, fn_b):
+    """Every schedule in which thread B runs its whole call while thread A is stopped at one line of the value preparation (one preemption,
+    B atomic).  -> [(line index, result of A, result of B)], plus the two sequential results first."""
+    import sys
+    import threading
+
+    import aiohomekit.model.characteristics.characteristic as mod
+
+    target = mod.check_convert_value.__code__
+    seq = (_call(fn_a), _call(fn_b))
+    # count A's line events
+    lines = []
+
+    def counter(frame, event, arg):
+        if frame.f_code is target:
+            def local(fr, ev, ar):
+                if ev == "line":
+                    lines.append(fr.f_lineno)
+                return local
+            return local
+        return None
+
+    sys.settrace(counter)
+    try:
+        _call(fn_a)
+    finally:
+        sys.settrace(None)
+    out = []
+    for k in range(len(lines)):
+        seen = {"n": 0, "b": None}
+
+        def tracer(frame, event, arg, k=k, seen=seen):
+            if frame.f_code is target and threading.current_thread() is threading.main_thread():
+                def local(fr, ev, ar):
+                    if ev == "line":
+                        if seen["n"] == k and seen["b"] is None:
+                            box = {}
+                            t = threading.Thread(target=lambda: box.setdefault("r", _call(fn_b)))
+                            t.start()
+                            t.join()
+                            seen["b"] = box.get("r")
+                        seen["n"] += 1
+                    return local
+                return local
+            return None
+
+        sys.settrace(tracer)
+        try:
+            ra = _call(fn_a)
+        finally:
+            sys.settrace(None)
+        out.append((k, lines[k], ra, seen["b"]))
+    return seq, out
+
+
+def case_threads(p):
+    """Two threads prepare values at the same time (an event loop thread and an executor job, two integrations): each gets what it would have got
+    alone, wherever the switch falls."""
+    from aiohomekit.model.characteristics.characteristic import check_convert_value
+
+    a, b = p["a"], p["b"]
+    _, cha = _char(a["fmt"], a["lo"], a["hi"], a["st"])
+    _, chb = _char(b["fmt"], b["lo"], b["hi"], b["st"])
+    fa = lambda: check_convert_value(_materialise(a["kind"], a["v"]), cha)  # noqa: E731
+    fb = lambda: check_convert_value(_materialise(b["kind"], b["v"]), chb)  # noqa: E731
+    (sa, sb), runs = _thread_schedules(fa, fb)
+    p["_schedules"] = len(runs)
+    for k, line, ra, rb in runs:
+        if not _same(ra, sa) or rb is None or not _same(rb, sb):
+            return [("result-depends-on-what-another-thread-prepares-at-the-same-time", {"a": a, "b": b, "switch_at_line": line, "alone": [repr(sa), repr(sb)], "interleaved": [repr(ra), repr(rb)]})]
+    return []
+
+
 def case_numkind(p):
     """An integer-valued input is the same number whatever Python type carries it (bool, an IntEnum member, an int subclass, a Decimal)."""
     fmt, lo, hi, st, kind, v = p["fmt"], p["lo"], p["hi"], p["st"], p["kind"], p["v"]
@@ -415,7 +507,7 @@ def case_numkind(p):
     return viol
 
 
-CASES = {"context": case_context, "numkind": case_numkind, "numeric": case_numeric, "garbage": case_garbage, "bool": case_bool, "sequence": case_sequence}
+CASES = {"validvalues": case_validvalues, "threads": case_threads, "context": case_context, "numkind": case_numkind, "numeric": case_numeric, "garbage": case_garbage, "bool": case_bool, "sequence": case_sequence}
 
 
 # ---------------------------------------------------------------- alphabets
@@ -623,10 +715,11 @@ def _work(item, seed, tier):
             acc.case(key=("seq", core.jsonable(p)), outcome=viol[0][0] if viol else "sequence:ok", sample={"case": "sequence", "params": p}, symbols=["family:sequence"])
             for sig, detail in viol:
                 acc.violation(sig, "sequence", p, detail)
-    elif family in ("context", "numkind"):
+    elif family in ("context", "numkind", "validvalues", "threads"):
         for p in item[1]:
             viol = CASES[family](p)
-            acc.case(key=(family, core.jsonable(p)), outcome=viol[0][0] if viol else f"{family}:ok", sample={"case": family, "params": p}, symbols=[f"family:{family}", f"{family}:{p.get('context') or p['kind']}"])
+            acc.extra["thread_schedules"] += p.pop("_schedules", 0)
+            acc.case(key=(family, core.jsonable(p)), outcome=viol[0][0] if viol else f"{family}:ok", sample={"case": family, "params": p}, symbols=[f"family:{family}", f"{family}:{p.get('context') or p.get('kind') or 'pair'}"])
             for sig, detail in viol:
                 acc.violation(sig, family, p, detail)
     elif family == "bool":
@@ -729,6 +822,22 @@ def run(ctx):
                 for cname in DEC_CONTEXTS:
                     cx.append({"fmt": fmt, "lo": lo, "hi": hi, "st": st, "kind": kind, "v": v, "context": cname})
     work += [("numkind", chunk) for chunk in _split(nk, 60)] + [("context", chunk) for chunk in _split(cx, 300)]
+    vv = []
+    for fmt, lo, hi, st, valid, vrange in (("uint8", 0, 1, 1, [0, 1], None), ("uint8", 0, 2, 1, [0, 1, 2, 3], None), ("uint8", 0, 3, None, [0, 1, 3], None), ("int", -5, 5, 5, [-5, 0, 5], None),
+                                           ("uint8", 0, 100, 1, [0, 50, 100], [0, 100]), ("float", 0, 10, 0.5, [0, 5, 10], None), ("uint32", 0, U32, 1, [0, 1, U32], None)):
+        for kind, v in (("int", "0"), ("int", "1"), ("int", "3"), ("int", "5"), ("float", "1.0"), ("float", "0.0"), ("float", "2.5"), ("str", "1"), ("str", "3"), ("bool", "1"), ("bool", "0"), ("intenum", "1"), ("int", "7"), ("int", "-5"), ("int", str(U32))):
+            vv.append({"fmt": fmt, "lo": lo, "hi": hi, "st": st, "valid": valid, "vrange": vrange, "kind": kind, "v": v})
+    work += [("validvalues", chunk) for chunk in _split(vv, 40)]
+    # two threads at once: an integer format with a step and more than six digits next to a float format with a step (and other pairs), every
+    # single switch point with the other thread's call run as a whole
+    th = []
+    A = [dict(fmt="uint32", lo=0, hi=U32, st=1, kind="int", v="3000000001"), dict(fmt="uint64", lo=0, hi=U64, st=5, kind="str", v="1099511627681"), dict(fmt="float", lo=0, hi=100, st=0.5, kind="float", v="27.26"),
+         dict(fmt="int", lo=-100, hi=I31 - 1, st=5, kind="int", v="2147483000"), dict(fmt="uint8", lo=0, hi=100, st=None, kind="str", v="10.5")]
+    for a_ in A:
+        for b_ in A:
+            if a_ is not b_:
+                th.append({"a": a_, "b": b_})
+    work += [("threads", chunk) for chunk in _split(th if not quick else th[:12], 2)]
     random.Random(ctx.seed).shuffle(work)
     ctx.pmap(_work, work)
     # (the DOCUMENTED phase ran first, so its inputs are the reported examples of the signatures they hit)
